@@ -74,11 +74,19 @@ def run_case(ctx, g, rng):
             c, how = grow_while_asking(api, recs, d, rng, ask, strings), "asked-while-growing"
         else:
             c, how = gen.build(api, recs, d, rng)
+    hooked = g % 7 == 5
+    if hooked:
+        # a user subclass overriding only the documented hook standardize_identifier: outside the reference model's
+        # domain, but the relations between the converter's own answers (derived-equivalences below) bind it all the same
+        c, how = gen.hooked_subclass(api)([gen.mk_record(api, r) for r in recs], delimiter=d), "hooked-subclass"
+        S.counters["wl:hooked-subclass-converters"] += 1
     sp = spec.SpecConverter(recs, d)
-    w = {"records": [spec.rec_dict(r) for r in recs], "delimiter": d}
+    w = {"records": [spec.rec_dict(r) for r in recs], "delimiter": d, "built": how}
     allp = [p for r in recs for p in spec.all_p(r)]
     allu = [u for r in recs for u in spec.all_u(r)]
     extra = [p + d + u + "1" for p in allp[:3] for u in allu[:3]] + [u + p + d + "1" for p in allp[:2] for u in allu[:2]]
+    if hooked:
+        extra += [p + d + sp.prefix_owner(p).prefix + d + "1" for p in allp[:4]] + [p + d + "no!" for p in allp[:3]]
     for q in gen.query_strings(recs, d, rng, extra):
         iu, ic = call(c.is_uri, q), call(c.is_curie, q)
         co, pu = call(c.compress, q), call(c.parse_uri, q, return_none=True)
@@ -99,6 +107,8 @@ def run_case(ctx, g, rng):
             bad("is_curie-expand-disagree", is_curie=ic, expand=ex)
         if ic == ("ret", True) and d not in q:
             bad("is_curie-without-delimiter", is_curie=ic)
+        if hooked:
+            S.counters["wl:strings-asked-of-hooked-subclass"] += 1
         want_parse = pu if (pu[0] == "ret" and pu[1] is not None) else pc if (pc[0] == "ret" and pc[1] is not None) else ("ret", None)
         if pa != want_parse:
             bad("parse-is-not-uri-first-then-curie", parse=pa, parse_uri=pu, parse_curie=pc)
